@@ -260,7 +260,7 @@ def tasks(tier, seed):
     from ..pyvc.driver import verify
     from ..contracts import curvesv
     # the norm under the tolerance test of __eq__: abs of a number, max |x_k| (attained, an upper bound) of a sequence of any length
-    ts = [(verify, (c, m, q, v)) for c, m, q, v in curvesv.ALL if q == "norm"]
+    ts = curvesv.tasks_for(("norm",))
     for pr in pairs(tier):
         for variant in ((0, 1) if tier == "quick" else (0, 1, 2)):
             ts.append((task_eq, (pr, variant)))
